@@ -331,3 +331,45 @@ _build_c07b = build
 def build(eng, tier):
     _build_c07b(eng, tier)
     add_collection_order_obligations(eng)
+
+
+def add_unload_order_target(eng):
+    """unload_from_model: an already-external tensor that falls below the threshold is read back into memory (so that it can be
+    stored inline).  Its bytes live in a data file that the same save may be about to replace: the read must happen BEFORE the
+    write.  Dominance obligation on the real function (lenient mode): on every path the call of _write_external_tensors is
+    preceded by the call of convert_tensors_from_external - and the result of that call is what the values receive."""
+    from pyvc.core import Exc
+    from pyvc.types import VFunc, VOpaque
+    import z3
+
+    def reader(e, p, args, kwargs, node):
+        p.ghost["$read_back"] = True
+        return [(p, VOpaque("memory tensors")), (p.copy(), Exc("AnyException", f"L{node.lineno}:convert_tensors_from_external"))]
+
+    def writer(e, p, args, kwargs, node):
+        e.oblige(p, z3.BoolVal(bool(p.ghost.get("$read_back"))), "dominance",
+                 f"L{node.lineno}:_write_external_tensors (may replace the data file) is preceded by convert_tensors_from_external (reads it)")
+        return [(p, VOpaque("external tensors")), (p.copy(), Exc("AnyException", f"L{node.lineno}:_write_external_tensors"))]
+
+    def setup(e, p, env):
+        e.lenient = True
+        e.global_overrides = dict(e.global_overrides)
+        e.global_overrides[(ED, "convert_tensors_from_external")] = VFunc("py", reader, "convert_tensors_from_external")
+        e.global_overrides[(ED, "_write_external_tensors")] = VFunc("py", writer, "_write_external_tensors")
+    if "Model7" not in eng.classes:
+        from pyvc.core import ClassDecl
+        eng.add_class(ClassDecl("Model7"))
+    t = Target("unload_from_model[order]", mod=ED, qual="unload_from_model", setup=setup,
+               params=dict(model=TRef("Model7"), base_dir=STR, relative_path=STR, size_threshold_bytes=INT, max_shard_size_bytes=TOpt(INT),
+                           callback=TRef(None), max_workers=TOpt(INT), max_in_flight_bytes=TOpt(INT), alignment=TOpt(INT), align_threshold=INT),
+               requires=[], ensures=[], raises_default=[], assert_mode="raise")
+    t.local_containers = ("initializers_to_become_external", "initializers_to_load_to_memory", "tensors_to_externalize")
+    eng.add_target(t)
+
+
+_build_c07c = build
+
+
+def build(eng, tier):
+    _build_c07c(eng, tier)
+    add_unload_order_target(eng)
